@@ -275,6 +275,10 @@ def kron_explicit(mk, shapes):
         # associativity with the pairwise kernel, both bracketings
         mk.eq("kron(a, kron(rest))", qc.kron(ops[0], qc.kron(*ops[1:])), want)
         mk.eq("kron(kron(init), z)", qc.kron(qc.kron(*ops[:-1]), ops[-1]), want)
+        # the parallel= option (pairwise tree reduction over a thread pool; the reduction itself is C16's subject) must not
+        # change the product, whatever the number of factors (odd counts leave an unpaired factor at some level)
+        for par in (True, 2, 3):
+            mk.eq(f"kron(*ops, parallel={par}) == kron(*ops)", qc.kron(*ops, parallel=par), want)
     mk.eq("kronpow(a, 2)", qc.kronpow(ops[0], 2), ref.kron(ops[0], ops[0]))
     if prod(ops[0].shape) <= 4:
         mk.eq("kronpow(a, 3)", qc.kronpow(ops[0], 3), ref.kron(ops[0], ops[0], ops[0]))
